@@ -61,7 +61,7 @@ def run(ck):
     hb = ck.build("h-utils")
     mc = ck.cfg_with("MC_Executor.cfg", {"NTasks": 2, "MaxSteps": 1 if ck.quick else 3})
     ck.tlc_mc("MC_Executor", mc, required_actions=["Cancel", "PollStart", "Step", "End", "DropGuard", "JoinReturn"])
-    for dev, inv in [("guard_first", "JoinOnlyAfterEnd"), ("no_bias", "OneStepAfterCancel")]:
+    for dev, inv in [("guard_first", "JoinOnlyAfterEnd"), ("no_bias", ("OneStepAfterCancel", "NoStepAfterSaw"))]:
         cfg = ck.cfg_with("MC_Executor.cfg", {"NTasks": 1, "Deviation": f'"{dev}"'}, name=f"MC_Executor_{dev}.cfg")
         r = ck.tlc_mc("MC_Executor", cfg, tag=f"mc_dev_{dev}", expect_violation=inv)
         if not r.get("expected_violation_reproduced"):
